@@ -130,6 +130,19 @@ CHECKS['C19'] = dict(
          'obligations are decided concretely on each path). Counterexamples are replayed on the real package (fresh interpreter processes for '
          'independence). Findings F9 and F10 were repaired in /repo (fix: commits 92b97ff, 5ad6cf4).',
     technique=TECH)
+CHECKS['C13'] = dict(
+    text='(ii) completeness: make_single_sig_lock/2 + witness/2, graftroot key and surrogate paths, script-hash lock + witness are executed '
+         'end to end (f-string template, compiler incl. comptime blocks, run_auth_scripts) with symbolic seed, sigfields (every presence '
+         'subset of three fields) and scripts, for pairs of sign flag / allowed operand: True iff the flag is permitted, committed or surrogate '
+         'script evaluated exactly once and the verdict is its verdict. (iii) exactness: each lock is run from an arbitrary witness-produced '
+         'state (stacks of 0..3 symbolic items of the relevant lengths); the verdict equals a reference predicate over the signature oracle '
+         '(key, flag-selected message, first 64 bytes, permitted flag, committed hash), and only the committed / correctly signed script is '
+         'ever handed to the evaluator.',
+    design_ref='DESIGN.md section 4 C13',
+    note='Trusted: SX engine incl. placeholder strings, z3, signature oracle and hash stubs (collision freedom only for the "different '
+         'script" clauses), C01 (a witness acts only through the state it leaves). Counterexamples are realised with real Ed25519 / SHAKE and '
+         'replayed on the real package. Graftap / taproot builders are under C05, multisig execution under C03.',
+    technique=TECH)
 NOT_APPLICABLE = {}
 NOTES = ('Exit codes of every check: 0 held on everything explored; 1 + VIOLATION line for a counterexample that was '
          'replayed on the real package and is not a listed known finding; 2 harness error / unsupported construct / '
